@@ -150,89 +150,147 @@ def check(ctx):
     if nmax is None:
         ctx.fail(gen, gen.node, "the mesh-ratio bound n_max is not defined as max(1, .): a zero ratio would give a zero diagonal", construct="<missing n_max = max(1, .)>")
         return
-    stage = 0  # 0 draw/tri, 1 diag added, 2 post
-    tri_seen = diag_seen = False
-    for _l, v, s in chain:
-        cv = canon(v)
-        names = {n.id for n in ast.walk(v) if isinstance(n, ast.Name)}
-        r = None
-        if isinstance(v, ast.BinOp) and is_randint(v.left) is not None:
-            r = v
-        if r is not None or is_randint(v) is not None:
-            # integer draw: bound by interval evaluation
-            draw = is_randint(v.left) if r is not None else is_randint(v)
-            off = v.right if r is not None else None
-            lo, hi = draw.args[0], draw.args[1]
-            llo, clo = linear(lo)
-            lhi, chi = linear(hi)
-            sub_t, sub_c = linear(off) if off is not None and isinstance(v.op, ast.Sub) else ({}, 0)
-            # interval [lo - off, hi - 1 - off]
-            def coef(d):
-                return d.get(nmax, 0), {k: x for k, x in d.items() if k != nmax}
+    # abstract interpretation of the matrix-valued locals (must-dataflow; robust to temporaries and helper extraction):
+    #   DRAW  integer draw with entries in [-n_max, n_max]      TRI  strictly triangular part of a DRAW (or zeros)
+    #   NS    TRI + eye * d with d in a finite non-zero value set bounded by n_max, then rank-preserving operations only
+    from ..flow import BasePolicy, TagFlow
 
-            a_lo, rest1 = coef(llo)
-            a_hi, rest2 = coef(lhi)
-            a_of, rest3 = coef(sub_t)
-            if rest1 or rest2 or rest3:
-                ctx.undecided(f"integer draw {cv[:50]} depends on more than n_max")
-                continue
-            lo_a, lo_b = a_lo - a_of, clo - sub_c
-            hi_a, hi_b = a_hi - a_of, chi - 1 - sub_c
-            # need hi_a*n + hi_b <= n  and  lo_a*n + lo_b >= -n  for all n >= 1
-            up_ok = (hi_a - 1 <= 0) and ((hi_a - 1) * 1 + hi_b <= 0)
-            dn_ok = (lo_a + 1 >= 0) and ((lo_a + 1) * 1 + lo_b >= 0)
-            ctx.check(up_ok and dn_ok, gen, s, f"off-diagonal draw in [{lo_a}*n{float(lo_b):+g}, {hi_a}*n{float(hi_b):+g}] within [-n, n]", f"the off-diagonal integer draw ranges over [{lo_a}*n_max{float(lo_b):+g}, {hi_a}*n_max{float(hi_b):+g}], which exceeds the mesh-ratio bound n_max", construct=f"off-diagonal draw {cv[:60]}")
-            continue
-        if call_name(v) in ("np.tril", "np.triu") and v.args and canon(v.args[0]) == mname:
-            kk = const_num(v.args[1]) if len(v.args) > 1 else (const_num(kw(v, "k")) if kw(v, "k") is not None else 0)
-            strict = (call_name(v) == "np.tril" and kk is not None and kk <= -1) or (call_name(v) == "np.triu" and kk is not None and kk >= 1)
-            tri_seen = True
-            ctx.check(strict and not diag_seen, gen, s, f"strictly triangular part ({call_name(v)}, k={kk})", f"the random part is {call_name(v)}(., {kk}): its diagonal is kept, so the sum with the +-n diagonal can be singular", construct=f"{call_name(v)} k={kk}")
-            continue
-        if call_name(v) == "np.zeros":
-            ctx.ok(gen, s, "zero matrix (degenerate branch)")
-            continue
-        if isinstance(v, ast.BinOp) and isinstance(v.op, ast.Add) and mname in names and "np.eye" in cv:
-            # D + eye * d
-            other = v.right if canon(v.left) == mname else v.left
-            dexpr = None
-            if isinstance(other, ast.BinOp) and isinstance(other.op, ast.Mult):
-                for a, b in ((other.left, other.right), (other.right, other.left)):
-                    if call_name(a) == "np.eye":
-                        dexpr = b
-            if dexpr is None:
-                ctx.fail(gen, s, "the diagonal term is not eye * d", construct=f"diagonal term {canon(other)[:60]}")
-                continue
-            if isinstance(dexpr, ast.Name):
-                dd = reaching_assignments(prog, gen, dexpr.id, s)
-                dexpr = dd[0] if len(dd) == 1 else dexpr
-            vals = finite_values(dexpr, nmax)
-            if vals is None:
-                ctx.undecided(f"value set of the diagonal {canon(dexpr)[:60]} not evaluable")
-            else:
-                nonzero = all((a != 0 and b == 0) or (a == 0 and b != 0) or (a * b > 0) for a, b in vals)
-                bounded = all(abs(a) <= 1 and b == 0 for a, b in vals)
-                ctx.check(nonzero and bounded, gen, s, f"diagonal values {[(str(a), str(b)) for a, b in vals]} (a*n_max+b): non-zero, |d| <= n_max", f"the diagonal takes the values {[f'{a}*n_max{float(b):+g}' for a, b in vals]}: it can vanish or exceed n_max, so the directions need not be a basis with bounded entries",
-                          construct=f"diagonal value set {[(str(a), str(b)) for a, b in vals]}")
-            diag_seen = True
-            ctx.check(tri_seen, gen, s, "diagonal added to the strictly triangular part", "no strictly triangular part precedes the diagonal", construct="diagonal without triangular part")
-            continue
-        if diag_seen:
-            okp = False
-            if call_name(v) in ("np.transpose",) or (isinstance(v, ast.Attribute) and v.attr == "T"):
-                okp = mname in names
-            if isinstance(v, ast.Call) and canon(v.func).split(".")[-1] == "permutation" and v.args and canon(v.args[0]) == mname:
-                okp = True
-            if call_name(v) == "np.transpose" and v.args and isinstance(v.args[0], ast.Call) and canon(v.args[0].func).split(".")[-1] == "permutation":
-                okp = canon(v.args[0].args[0]) == mname
-            if isinstance(v, ast.BinOp) and isinstance(v.op, ast.Div) and canon(v.left) == mname and isinstance(v.right, ast.Name) and v.right.id in params:
-                okp = True
-                div_param = v.right.id
-                ctx.extra["divisor_param"] = div_param
-            ctx.check(okp, gen, s, f"rank-preserving: {cv[:50]}", f"after the basis is built it is modified by '{cv[:60]}', which is not a permutation, transpose or division by the scale parameter", construct=f"post-op {cv[:60]}")
-            continue
-        ctx.fail(gen, s, f"unrecognised construction step '{cv[:60]}' before the diagonal is added", construct=f"pre-op {cv[:60]}")
-    ctx.check(diag_seen, gen, gen.node, "diagonal term present", "no non-zero diagonal is added to the triangular part", construct="<missing diagonal>")
+    issues = {}  # id(node) -> (node, message, construct)
+    notes = {}
+
+    def bound_draw(v, s_):
+        draw = is_randint(v.left) if isinstance(v, ast.BinOp) and is_randint(v.left) is not None else is_randint(v)
+        off = v.right if isinstance(v, ast.BinOp) and is_randint(v.left) is not None else None
+        lo, hi = draw.args[0], draw.args[1]
+        llo, clo = linear(lo)
+        lhi, chi = linear(hi)
+        sub_t, sub_c = linear(off) if off is not None and isinstance(v.op, ast.Sub) else ({}, 0)
+
+        def coef(d):
+            return d.get(nmax, 0), {k: x for k, x in d.items() if k != nmax}
+
+        a_lo, rest1 = coef(llo)
+        a_hi, rest2 = coef(lhi)
+        a_of, rest3 = coef(sub_t)
+        if rest1 or rest2 or rest3:
+            notes[id(v)] = f"integer draw {canon(v)[:50]} depends on more than n_max"
+            return None
+        lo_a, lo_b = a_lo - a_of, clo - sub_c
+        hi_a, hi_b = a_hi - a_of, chi - 1 - sub_c
+        up_ok = (hi_a - 1 <= 0) and ((hi_a - 1) * 1 + hi_b <= 0)
+        dn_ok = (lo_a + 1 >= 0) and ((lo_a + 1) * 1 + lo_b >= 0)
+        if up_ok and dn_ok:
+            notes[id(v)] = f"off-diagonal draw in [{lo_a}*n{float(lo_b):+g}, {hi_a}*n{float(hi_b):+g}] within [-n, n]"
+            return True
+        issues[id(v)] = (v, f"the off-diagonal integer draw ranges over [{lo_a}*n_max{float(lo_b):+g}, {hi_a}*n_max{float(hi_b):+g}], outside [-n_max, n_max]: entries are not bounded by the mesh ratio", f"off-diagonal draw range [{lo_a}n{float(lo_b):+g}, {hi_a}n{float(hi_b):+g}]")
+        return False
+
+    class MatPolicy(BasePolicy):
+        row_select_preserves = False
+
+        def eval(self, v, state, flow):
+            if isinstance(v, ast.Name):
+                return state.get(v.id, frozenset())
+            cv = canon(v)
+            if (isinstance(v, ast.BinOp) and is_randint(v.left) is not None) or is_randint(v) is not None:
+                okd = bound_draw(v, None)
+                return frozenset({"DRAW"}) if okd else frozenset()
+            if call_name(v) in ("np.tril", "np.triu") and v.args:
+                inner = self.eval(v.args[0], state, flow)
+                kk = const_num(v.args[1]) if len(v.args) > 1 else (const_num(kw(v, "k")) if kw(v, "k") is not None else 0)
+                strict = (call_name(v) == "np.tril" and kk is not None and kk <= -1) or (call_name(v) == "np.triu" and kk is not None and kk >= 1)
+                if "NS" in inner:
+                    issues[id(v)] = (v, f"{call_name(v)} is applied after the diagonal was added: the basis loses its diagonal", f"triangular part after diagonal {cv[:40]}")
+                    return frozenset()
+                if not strict:
+                    issues[id(v)] = (v, f"the random part is {call_name(v)}(., {kk}): its diagonal is kept, so the sum with the +-d diagonal can be singular (zero diagonal entry)", f"non-strict triangular part {call_name(v)} k={kk}")
+                    return frozenset()
+                if "DRAW" in inner:
+                    notes[id(v)] = f"strictly triangular part ({call_name(v)}, k={kk})"
+                    return frozenset({"TRI"})
+                return frozenset()
+            if call_name(v) == "np.zeros":
+                notes[id(v)] = "zero matrix (degenerate branch)"
+                return frozenset({"TRI"})
+            if isinstance(v, ast.BinOp) and isinstance(v.op, ast.Add) and "np.eye" in cv:
+                sides = [(v.left, v.right), (v.right, v.left)]
+                for tri_e, diag_e in sides:
+                    t_tags = self.eval(tri_e, state, flow)
+                    dexpr = None
+                    if isinstance(diag_e, ast.BinOp) and isinstance(diag_e.op, ast.Mult):
+                        for x_, y_ in ((diag_e.left, diag_e.right), (diag_e.right, diag_e.left)):
+                            if call_name(x_) == "np.eye":
+                                dexpr = y_
+                    elif call_name(diag_e) == "np.diag" and diag_e.args:
+                        dexpr = diag_e.args[0]
+                    if dexpr is None:
+                        continue
+                    if "TRI" not in t_tags:
+                        issues[id(v)] = (v, "no strictly triangular part precedes the diagonal (the other summand is not the strictly triangular part of a bounded draw)", "diagonal without triangular part")
+                        return frozenset()
+                    if isinstance(dexpr, ast.Name):
+                        dd = reaching_assignments(prog, gen, dexpr.id, v)
+                        dexpr = dd[0] if len(dd) == 1 else dexpr
+                    vals = finite_values(dexpr, nmax)
+                    if vals is None:
+                        notes[id(v)] = f"undecided: value set of the diagonal {canon(dexpr)[:60]} not evaluable"
+                        return frozenset({"NS", "UNDEC"})
+                    nonzero = all((a_ != 0 and b_ == 0) or (a_ == 0 and b_ != 0) or (a_ * b_ > 0) for a_, b_ in vals)
+                    bounded = all(abs(a_) <= 1 and b_ == 0 for a_, b_ in vals)
+                    if nonzero and bounded:
+                        notes[id(v)] = f"diagonal values {[(str(a_), str(b_)) for a_, b_ in vals]} (a*n_max+b): non-zero, |d| <= n_max"
+                        return frozenset({"NS"})
+                    issues[id(v)] = (v, f"the diagonal takes the values {[f'{a_}*n_max{float(b_):+g}' for a_, b_ in vals]}: " + ("a zero diagonal entry makes the basis singular" if not nonzero else "entries exceed the mesh ratio n_max"), f"diagonal value set {[(str(a_), str(b_)) for a_, b_ in vals]}")
+                    return frozenset()
+                issues[id(v)] = (v, "the diagonal term is not eye * d", f"diagonal term {cv[:60]}")
+                return frozenset()
+            # rank-preserving operations on a non-singular matrix
+            inner = None
+            if call_name(v) == "np.transpose" and v.args:
+                inner = v.args[0]
+            elif isinstance(v, ast.Attribute) and v.attr == "T":
+                inner = v.value
+            elif isinstance(v, ast.Call) and canon(v.func).split(".")[-1] == "permutation" and v.args:
+                inner = v.args[0]
+            elif isinstance(v, ast.BinOp) and isinstance(v.op, ast.Div) and isinstance(v.right, ast.Name) and v.right.id in params:
+                inner = v.left
+                ctx.extra["divisor_param"] = v.right.id
+            elif isinstance(v, ast.Call) and isinstance(v.func, ast.Attribute) and v.func.attr in ("copy", "astype"):
+                inner = v.func.value
+            if inner is not None:
+                t_ = self.eval(inner, state, flow)
+                return t_
+            if isinstance(v, ast.UnaryOp) and isinstance(v.op, ast.USub):
+                return self.eval(v.operand, state, flow)
+            return frozenset()
+
+        def eval_unpack(self, value, i, n, state, flow):
+            return frozenset()
+
+    mf = TagFlow(prog, gen, MatPolicy())
+    rets_ = [n for n in ast.walk(gen.node) if isinstance(n, ast.Return) and n.value is not None]
+    final = None
+    for r_ in rets_:
+        v_ = r_.value
+        if isinstance(v_, ast.Name):
+            dd_ = reaching_assignments(prog, gen, v_.id, r_)
+            v_ = dd_[0] if len(dd_) == 1 else v_
+        if call_name(v_) == "np.vstack" and v_.args and isinstance(v_.args[0], (ast.Tuple, ast.List)) and len(v_.args[0].elts) == 2:
+            e0 = v_.args[0].elts[0]
+            e0 = e0.operand if isinstance(e0, ast.UnaryOp) else e0
+            st_ = mf.state_before(r_ if isinstance(r_.value, ast.Call) else r_)
+            tg_ = mf.policy.eval(e0, mf.state_before(v_) or mf.state_before(r_) or {}, mf)
+            final = tg_ if final is None else final & tg_
+    for node_, msg_, cons_ in issues.values():
+        ctx.fail(gen, node_, msg_, construct=cons_)
+    for k_, txt in notes.items():
+        if txt.startswith("undecided"):
+            ctx.undecided(txt[11:])
+        else:
+            ctx.ok(gen, gen.node, txt)
+    if not issues:
+        ctx.check(final is not None and "NS" in final, gen, rets_[-1] if rets_ else gen.node, "the stacked matrix is strictly triangular + non-zero diagonal, then rank-preserving operations only",
+                  "the matrix that is stacked as [M; -M] is not, on every path, a strictly triangular bounded draw plus a non-zero bounded diagonal followed by rank-preserving operations only", construct="<basis construction>")
 
     # ------------------------------------------------------------------ R3
     ctx.rule("R3", "the scale divided out in the generator is multiplied back by the caller; displacement = B * mesh_size * scale added to the incumbent", floor=2)
